@@ -17,6 +17,7 @@ CONSTANTS
   AuthSetups <- AuthSetupsDef
   Forms <- FormsDef
   AltForm <- AltFormDef
+  Scales <- ScalesDef
   Variant = "tailtwice"
 INVARIANT HashedLength
 CHECK_DEADLOCK FALSE
